@@ -142,6 +142,46 @@ def check_eps(run, F):
     v = struct.unpack('<d', struct.pack('<Q', bits & (2 ** 64 - 1)))[0]
     run.ob('EPS.value', 'tea_core::prelude::EPS', 'floor constant', 0.0 < v <= EPS_MAX, 'tea-core/src/prelude.rs',
            'EPS = %r (confirmed bound %r)' % (v, EPS_MAX))
+    # ... and no statistic floors at a tolerance of its own: a comparison against a small positive float
+    # literal (between the confirmed floor and 1e-3) in the aggregation / rolling / analytics code is a
+    # variance floor that bypasses the constant
+    import re
+    from facts import walk, peel, loc, src
+    n = 0
+    for fn in F.fns:
+        if fn.crate not in ('tea_core', 'tea_agg', 'tea_rolling', 'tea_map', 'tevec') or '/tests/' in fn.file or \
+                fn.file.endswith('testing.rs'):
+            continue
+        for x in walk(fn.hir):
+            if x.get('k') != 'Binary' or x.get('op') not in ('Lt', 'Le', 'Gt', 'Ge'):
+                continue
+            for c in x.get('ch', [])[:2]:
+                c = peel(c)
+                if c.get('k') == 'Path' and str(c.get('ty')) == 'f64' and 'Const' in str(c.get('res', '')):
+                    # a named tolerance: its evaluated value, when the constant is one of the workspace's own
+                    nm = str(c.get('def', '')).split('::')[-1]
+                    cb = F.const_value(nm) if nm else None
+                    if cb is not None:
+                        cv = abs(struct.unpack('<d', struct.pack('<Q', cb & (2 ** 64 - 1)))[0])
+                        if EPS_MAX < cv < 1e-3:
+                            n += 1
+                            run.ob('EPS.value', fn, 'comparison against a private tolerance', False, loc(x),
+                                   '%s: the constant %s = %r instead of EPS' % (src(x)[:60], nm, cv))
+                    continue
+                if c.get('k') == 'Lit' and str(c.get('ty')) in ('f64', 'f32'):
+                    m = re.match(r'^-?[0-9][0-9_]*\.?[0-9_]*(?:[eE][-+]?[0-9_]+)?', str(c.get('v', '')))
+                    if not m:
+                        continue
+                    try:
+                        lv = abs(float(m.group(0).replace('_', '')))
+                    except ValueError:
+                        continue
+                    if EPS_MAX < lv < 1e-3:
+                        n += 1
+                        run.ob('EPS.value', fn, 'comparison against a private tolerance', False, loc(x),
+                               '%s: a floor of %r instead of EPS' % (src(x)[:60], lv))
+    run.note('EPS.value: %d comparison(s) against a float literal in (1e-14, 1e-3) in the statistics crates' % n) \
+        if hasattr(run, 'note') else None
 
 
 def check_floors(run, F, files):
